@@ -207,5 +207,5 @@ func init() {
 	// "gap": the same judgement with a second writer let in at every point where AddEntry / DeleteEntry pause (the property quantifies over histories, and two sessions make histories that one cannot)
 	props["C02"] = &PropSpec{Mode: "rib", Extra: []string{"gap"}, Diffs: []string{"add.", "pend"}, Monitors: []string{"c02"}}
 	props["C03"] = &PropSpec{Mode: "rib", Extra: []string{"gap"}, Diffs: []string{"refs", "del."}, Monitors: []string{"c03"}}
-	props["C16"] = &PropSpec{Mode: "rib", Diffs: []string{"hooks", "resolved"}, Monitors: []string{"c16"}}
+	props["C16"] = &PropSpec{Mode: "rib", Extra: []string{"gap"}, Diffs: []string{"hooks", "resolved"}, Monitors: []string{"c16"}}
 }
